@@ -827,6 +827,11 @@ class _NPX(_types.ModuleType):
             return _map(x, lambda c: self.sign(c))
         if _symbolic(x):
             xx = X(val(x))
+            alg = STATE.alg
+            if hasattr(alg, "abs_atoms") and STATE.decide is None and sp.sympify(val(x)).is_number is False \
+                    and not (sp.sympify(val(x)).is_positive or sp.sympify(val(x)).is_negative or sp.sympify(val(x)).is_zero):
+                # generic symbolic value (non-zero): sign(x) = x / |x| with |x| an absolute-value atom (a^2 == x^2)
+                return xx / X(alg.abs(val(x)))
             if xx > 0:
                 return 1.0
             if xx < 0:
